@@ -1,8 +1,11 @@
 #!/bin/bash
-# seedtest.sh <seed-dir> <property> [tier]: apply a seeded change to /repo, run the check, undo it.
+# seedtest.sh <seed-dir> <property> [tier]: apply a seeded change to /repo, run the check, undo it (always).
 S=$1; P=$2; T=${3:-quick}
 git -C /repo diff --quiet || { echo "/repo is dirty"; exit 2; }
+trap 'git -C /repo checkout -- . ; git -C /repo clean -fdq' EXIT
+trap '' PIPE
 git -C /repo apply $S/patch.diff || { echo "patch does not apply"; exit 3; }
-cd /verif && ./check $P --tier $T 2>/dev/null | head -5
-echo "exit=${PIPESTATUS[0]}"
-git -C /repo checkout -- .
+cd /verif && ./check $P --tier $T > /tmp/seedtest.out 2>/dev/null
+rc=$?
+grep -v '^KNOWN-FINDING' /tmp/seedtest.out | head -4 2>/dev/null
+echo "exit=$rc"
